@@ -15,6 +15,7 @@ structure PoolBinDrv where
   price : Int := 100000000000      -- `--contract.price` (default "100 gwei")
   maxHosts : Int := 0              -- `--max-request-hosts`
   clients : List String := []      -- light clients admitted so far
+  bal : List (String × Int) := []  -- what billed keep-alives left each client with (absent: 0)
 
 def unflag (s : String) : String := s.replace "_" " "
 
@@ -32,16 +33,34 @@ def poolBinStep (st : PoolBinDrv) (args : List String) : PoolBinDrv × String :=
     -- the operator's flags, parsed as pool.go parses them; a value it cannot parse stops the binary
     match findStr "min" rest, findStr "price" rest, (findStr "max" rest).bind (·.toInt?) with
     | some mn, some pr, some mx =>
-      let minV : Option (Option Int) := if mn == "off" then some none else (Ether.parseEther (unflag mn)).map some
+      let minV : Option (Option Int) := Ether.minBalanceFlag (unflag mn)
       match minV, Ether.parseEther (unflag pr) with
       | some m, some price => ({ running := true, minBalance := m, price := price, maxHosts := mx }, "ok")
       | _, _ => ({ running := false }, "err start-failed")
     | _, _, _ => (st, "bad-op")
   | ["client", n] =>
+    -- `OnClient`: a light client registers iff its balance is not below the configured minimum
+    let b := ((st.bal.find? (·.1 == n)).map (·.2)).getD 0
     if !st.running then (st, "err not-running")
     else match st.minBalance with
-      | some m => if 0 < m then (st, s!"err LowBalance 0 {m}") else ({ st with clients := n :: st.clients }, "ok")
+      | some m =>
+        if b < m then ({ st with clients := st.clients.filter (· != n) }, s!"err LowBalance {b} {m}")
+        else ({ st with clients := n :: st.clients }, "ok")
       | none => ({ st with clients := n :: st.clients }, "ok")
+  | "kbill" :: n :: _h :: rest =>
+    -- a billable keep-alive (`OnUpdate`): the charge depends on the wall clock, so the balance it leaves is observed
+    -- (`cur=`); the decision taken on it is prescribed: cut off iff a minimum is configured and the remaining balance
+    -- is below it.  The charge is kept either way.
+    if !st.running then (st, "err not-running")
+    else if !st.clients.contains n then (st, "skipped-refused")
+    else if st.price = 0 then (st, "err InvalidSettings")
+    else match (findStr "cur" rest).bind (·.toInt?) with
+      | none => (st, "bad-op")
+      | some cur =>
+        let st' := { st with bal := (n, cur) :: st.bal.filter (·.1 != n) }
+        match st.minBalance with
+        | some m => if cur < m then (st', s!"err LowBalance {cur} {m}") else (st', "ok")
+        | none => (st', "ok")
   | ["kalive", n] =>
     if !st.running then (st, "err not-running")
     else if !st.clients.contains n then (st, "skipped-refused")
